@@ -10,6 +10,7 @@ mod fam_signed;
 mod fam_rules;
 mod fam_direct;
 mod fam_obs;
+mod fam_round2;
 
 pub type O = Out<BufWriter<File>>;
 
@@ -54,20 +55,87 @@ fn main() {
     let mut rng = Rng::new(seed);
     match family {
         "path" => fam_path::generate(&mut o, tier, &mut rng),
-        "c01" => fam_signed::c01(&mut o, tier, &mut rng),
-        "c02" => fam_signed::c02(&mut o, tier, &mut rng, 2),
-        "c15" => fam_signed::c02(&mut o, tier, &mut rng, 15),
-        "c03" => fam_rules::c03(&mut o, tier, &mut rng),
-        "c04" => fam_rules::c04(&mut o, tier, &mut rng),
-        "c05" => fam_rules::c05(&mut o, tier, &mut rng),
-        "c11" => fam_rules::c11(&mut o, tier, &mut rng),
-        "c12" => fam_rules::c12(&mut o, tier, &mut rng),
-        "c13" => fam_rules::c13(&mut o, tier, &mut rng, 13),
-        "c14" => fam_rules::c14(&mut o, tier, &mut rng),
-        "c16e" => fam_rules::c16_e2e(&mut o, tier, &mut rng),
-        "c19" => fam_rules::c19(&mut o, tier, &mut rng),
-        "c08" => fam_rules::c08(&mut o, tier, &mut rng),
-        "c10" => fam_direct::c10(&mut o, tier, &mut rng),
+        // (the purpose-built family first, then the round-2 classes, then the broad request corpus under
+        // the property's own predicate and projection)
+        "c01" => {
+            fam_signed::c01(&mut o, tier, &mut rng);
+            fam_round2::broad(&mut o, 1, tier, &mut rng);
+        }
+        "c02" => {
+            fam_signed::c02(&mut o, tier, &mut rng, 2);
+            fam_round2::extra_date(&mut o, 2, tier, &mut rng);
+        }
+        "c15" => {
+            fam_signed::c02(&mut o, tier, &mut rng, 15);
+            fam_round2::oversize_fold(&mut o, 15, tier, &mut rng);
+            fam_round2::fold_nothing_contributed(&mut o, 15, tier, &mut rng);
+        }
+        "c03" => {
+            fam_rules::c03(&mut o, tier, &mut rng);
+            fam_round2::iso_week_scope(&mut o, 3, tier, &mut rng);
+            fam_round2::double_encoded_credentials(&mut o, 3, tier, &mut rng);
+            fam_round2::broad(&mut o, 3, tier, &mut rng);
+        }
+        "c04" => {
+            fam_rules::c04(&mut o, tier, &mut rng);
+            fam_round2::far_instants(&mut o, 4, tier, &mut rng);
+            fam_round2::extra_date(&mut o, 4, tier, &mut rng);
+            fam_round2::broad(&mut o, 4, tier, &mut rng);
+        }
+        "c05" => {
+            fam_rules::c05(&mut o, tier, &mut rng);
+            fam_round2::upper_signed_entries(&mut o, tier, &mut rng);
+            fam_round2::broad(&mut o, 5, tier, &mut rng);
+        }
+        "c11" => {
+            fam_rules::c11(&mut o, tier, &mut rng);
+            fam_round2::fold_signed_proxy_headers(&mut o, tier, &mut rng);
+            fam_round2::broad(&mut o, 11, tier, &mut rng);
+        }
+        "c12" => {
+            fam_rules::c12(&mut o, tier, &mut rng);
+            fam_round2::fold_query_carrier_dups(&mut o, 12, tier, &mut rng);
+            fam_round2::fold_both_names(&mut o, 12, tier, &mut rng);
+            fam_round2::fold_nothing_contributed(&mut o, 12, tier, &mut rng);
+            if tier != "quick" {
+                fam_round2::oversize_fold(&mut o, 12, tier, &mut rng);
+            }
+            fam_round2::broad(&mut o, 12, tier, &mut rng);
+        }
+        "c13" => {
+            fam_rules::c13(&mut o, tier, &mut rng, 13);
+            fam_round2::oversize_fold(&mut o, 13, tier, &mut rng);
+            fam_round2::confusables(&mut o, 13, tier, &mut rng);
+            fam_round2::double_encoded_credentials(&mut o, 13, tier, &mut rng);
+            fam_round2::double_encoded_parameters(&mut o, 13, tier, &mut rng);
+            fam_round2::broad(&mut o, 13, tier, &mut rng);
+        }
+        "c14" => {
+            fam_rules::c14(&mut o, tier, &mut rng);
+            fam_round2::io_errors_and_recovery(&mut o, tier, &mut rng);
+            fam_round2::broad(&mut o, 14, tier, &mut rng);
+        }
+        "c16e" => {
+            fam_rules::c16_e2e(&mut o, tier, &mut rng);
+            fam_round2::broad(&mut o, 16, tier, &mut rng);
+        }
+        "c19" => {
+            fam_rules::c19(&mut o, tier, &mut rng);
+            fam_round2::fold_query_carrier_dups(&mut o, 19, tier, &mut rng);
+            fam_round2::extra_date(&mut o, 19, tier, &mut rng);
+            fam_round2::broad(&mut o, 19, tier, &mut rng);
+        }
+        "c08" => {
+            fam_rules::c08(&mut o, tier, &mut rng);
+            fam_round2::confusables(&mut o, 8, tier, &mut rng);
+            fam_round2::double_encoded_credentials(&mut o, 8, tier, &mut rng);
+            fam_round2::double_encoded_parameters(&mut o, 8, tier, &mut rng);
+        }
+        "c10" => {
+            fam_direct::c10(&mut o, tier, &mut rng);
+            fam_round2::fold_both_names(&mut o, 10, tier, &mut rng);
+            fam_round2::broad(&mut o, 10, tier, &mut rng);
+        }
         "c06" => fam_direct::c06(&mut o, tier, &mut rng),
         "c16" => fam_direct::c16(&mut o, tier, &mut rng),
         "reqops" => fam_direct::reqops(&mut o, tier, &mut rng),
